@@ -293,3 +293,69 @@ func countEdges(m map[ssa.Value][]ssa.Value) int {
 	}
 	return n
 }
+
+// ---------------------------------------------------------------------------
+// R-DCG-LOOKAHEAD (added after seed C17): a sub-body translated for a goal that is placed under \+ gets a
+// remainder variable of its own; sharing the enclosing remainder would make the negation test "consumes
+// exactly up to rest" instead of "derives some prefix".
+
+func ruleDCGLookahead(c *Ctx, r *Report) {
+	const rule = "R-DCG-LOOKAHEAD"
+	neg := c.global("atomNegation")
+	if neg == nil {
+		r.undecided(rule, "anchor:atomNegation", "-", "locate the \\+ atom", "not found")
+		return
+	}
+	n := 0
+	for _, fn := range c.LibFuncs() {
+		if funcPkg(fn) != c.Engine || !(c.isDCGConstrSig(fn.Signature) || c.isDCGTranslatorSig(fn.Signature)) {
+			continue
+		}
+		g := c.buildDCGGraph(fn)
+		eachInstr(fn, func(in ssa.Instruction) {
+			call, ok := in.(*ssa.Call)
+			if !ok {
+				return
+			}
+			callee := call.Call.StaticCallee()
+			if callee == nil || callee.Name() != "Apply" || len(call.Call.Args) != 2 {
+				return
+			}
+			ld, ok := call.Call.Args[0].(*ssa.UnOp)
+			if !ok || ld.X != ssa.Value(neg) {
+				return
+			}
+			// the goal placed under \+
+			for _, e := range variadicElems(call.Call.Args[1]) {
+				for _, l := range c.originSet(e) {
+					sub, idx := callOfValue(l)
+					if sub == nil || idx != 0 || len(sub.Call.Args) != 4 {
+						continue
+					}
+					var sig *types.Signature
+					if f := sub.Call.StaticCallee(); f != nil {
+						sig = f.Signature
+					} else {
+						sig, _ = sub.Call.Value.Type().Underlying().(*types.Signature)
+					}
+					if sig == nil || !(c.isDCGTranslatorSig(sig) || c.isDCGConstrSig(sig)) {
+						continue
+					}
+					n++
+					key := fname(fn) + "/negated-body.rest"
+					desc := "the body under \\+ is translated with a fresh remainder variable"
+					rest := g.norm(sub.Call.Args[2])
+					if rc, ok := rest.(*ssa.Call); ok && rc.Call.StaticCallee() != nil && rc.Call.StaticCallee().Name() == "NewVariable" {
+						r.ok(rule, key, c.at(sub), desc, "remainder argument is a NewVariable() of this entry", true)
+					} else {
+						r.bad(rule, key, c.at(sub), desc, "the negated body is tied to "+valName(sub.Call.Args[2])+": with an instantiated remainder \\+ succeeds whenever the body does not consume exactly that much")
+					}
+				}
+			}
+		})
+	}
+	if n == 0 {
+		r.bad(rule, "dcg/negation", "-", "the body under \\+ is translated with a fresh remainder variable", "no translation placed under \\+ found")
+	}
+	r.analysed(rule, fmt.Sprintf("%d sub-translations under \\+", n))
+}
